@@ -166,8 +166,14 @@ def split_target(target):
 
 class WsgiWorld:
     kind = "wsgi"
+    own_cache = False
+    _cache_fn = None
 
-    def __init__(self, root, prefix="/", principal="/user/", index_threshold=None, paranoid=False, wrap_wellknown=False):
+    def __init__(self, root, prefix="/", principal="/user/", index_threshold=None, paranoid=False, wrap_wellknown=False, own_cache=False):
+        # own_cache: this application object stands for a second worker process on the same directory (gunicorn
+        # workers = 2 in the repository's examples): it gets its own store cache instead of sharing the module-wide one
+        self.own_cache = own_cache
+        self._cache_fn = None
         self.root = root
         self.prefix = prefix if prefix.endswith("/") else prefix + "/"
         self.principal = principal
@@ -197,15 +203,31 @@ class WsgiWorld:
     def stop(self):
         self.app = None
         self.backend = None
+        self._cache_fn = None
 
     def restart(self):
         self.stop()
-        clear_store_caches()
+        if not self.own_cache:
+            clear_store_caches()
         self.start()
 
     def close(self):
         self.stop()
-        clear_store_caches()
+        if not self.own_cache:
+            clear_store_caches()
+
+    def _swap_cache(self):
+        """(own_cache) make xandikos.web.open_store_from_path this worker's own cache for the duration of one request."""
+        import functools
+
+        import xandikos.web as web
+
+        if self._cache_fn is None:
+            shared = web.open_store_from_path
+            self._cache_fn = functools.lru_cache(maxsize=shared.cache_info().maxsize)(shared.__wrapped__)
+        saved = web.open_store_from_path
+        web.open_store_from_path = self._cache_fn
+        return saved
 
     def fingerprint(self):
         return stores_fingerprint(self.root)
@@ -261,11 +283,17 @@ class WsgiWorld:
             out["status"] = status
             out["headers"] = rheaders
 
+        saved = self._swap_cache() if self.own_cache else None
         try:
             chunks = self.app(environ, start_response)
             data = b"".join(chunks)
         except Exception as e:  # an uncaught exception is a 500 in any WSGI server
             return Resp(500, {}, b"", exc="%s: %s" % (type(e).__name__, e))
+        finally:
+            if saved is not None:
+                import xandikos.web as web
+
+                web.open_store_from_path = saved
         st = out.get("status", "500 no status")
         try:
             code = int(str(st).split()[0])
